@@ -196,6 +196,7 @@ def h_chain_mixed(ctx):
     cfg = ctx.cfg
     gridders.reset()
     stubs.reset_logs()
+    stubs.SCALE_CONTRACT["exact"] = False  # the value of the scale is irrelevant to the composition claims
     kind = cfg["kind"]
     npts = cfg.get("npts", 4)
     e, n, data, weights = _dataset(ctx, "", (npts,), 1, cfg.get("weighted", False))
